@@ -485,6 +485,247 @@ class SeqSuite(Suite):
         return msgs
 
 
+SEL_SHAPES = ["f:S", "f:SS", "f:D", "f:DS", "f:DSS", "f:SD", "f:OS", "f:OD", "f:SO", "m:S", "m:SS", "m:D", "m:DS", "m:SD",
+              "d:", "d:O", "d:S", "d:SS", "d:SO", "l:S", "l:DS"]
+_selsizes_cache = {}
+
+
+def sel_sizes():
+    """frame sizes of the coroutine signatures of the `sel` cases, asked from the binary"""
+    import os
+    cands = [os.path.join(core.BUILD, f) for f in os.listdir(core.BUILD)
+             if f.startswith(HARNESS[0] + "-") and ".tmp" not in f] if os.path.isdir(core.BUILD) else []
+    exe = max(cands, key=os.path.getmtime) if cands else core.build_harness(HARNESS[0], HARNESS[1], **HARNESS[2])
+    if exe in _selsizes_cache:
+        return _selsizes_cache[exe]
+    rc, out, err = core.run_proc(exe, "", timeout=60, args=["--selsizes"])
+    rows = [l.split() for l in out.splitlines() if l.startswith("selsizes ")]
+    tab = {}
+    if rows:
+        for w in rows[0][1:]:
+            k, _, v = w.partition("=")
+            tab[k] = int(v)
+    for sh in SEL_SHAPES:           # a broken header can crash the query: last known sizes, the crash shows up in the suite
+        npar = len(sh) - 2 + (1 if sh[0] != "f" else 0)
+        tab.setdefault(sh + "/0", 96 + 8 * npar)
+        tab.setdefault(sh + "/1", 472 + 8 * npar)
+    _selsizes_cache[exe] = tab
+    return tab
+
+
+def sel_args(shape, ids):
+    """the arguments `operator new` sees: ('S'|'D', object) or ('O', None); `*this` first for members and lambdas"""
+    ids = list(ids)
+    args = []
+    if shape[0] == "d":
+        args.append(("D", 2 + ids.pop(0) % 2))
+    elif shape[0] in "ml":
+        args.append(("O", None))
+    for c in shape[2:]:
+        if c == "O":
+            args.append(("O", None))
+        else:
+            i = ids.pop(0)
+            args.append((c, i % 2 if c == "S" else 2 + i % 2))
+    args.append(("O", None))
+    return args
+
+
+def api_select(shape, ids):
+    """the storage objects the API may select for this call (with_allocator.h: the storage is the first argument of the
+    coroutine — after the object for member functions and lambdas; an object that merely derives from the storage type
+    does not displace a storage that is passed explicitly right behind it).  Two explicit storages in the first two
+    positions: the statement does not say which one, either is accepted."""
+    a = sel_args(shape, ids)
+    a0, a1 = a[0], a[1] if len(a) > 1 else ("O", None)
+    if a0[0] == "S":
+        return {a0[1], a1[1]} if a1[0] == "S" else {a0[1]}
+    if a0[0] == "D":
+        return {a1[1]} if a1[0] == "S" else {a0[1]}
+    return {a1[1]} if a1[0] in "SD" else set()
+
+
+def sel_current(shape, ids):
+    """what the validated tree does (generator only: which object will be occupied)"""
+    a = sel_args(shape, ids)
+    if a[0][0] == "S" and a[1][0] == "S":
+        return a[1][1]
+    return min(api_select(shape, ids))
+
+
+class SelSuite(Suite):
+    name = "storage-select"
+    harness = HARNESS
+    driver = "drv_c19"
+    corpus_prefix = "c19_sel"
+    chunk = 60
+    nontrivial_rule = "at least three coroutines, two of them alive at once in different storage objects"
+
+    def gen_case(self, rng, sizes):
+        lines = ["case 0 sel"]
+        live = {}       # frame -> object
+        nframes = 0
+        weights = rng.choice([None, ["d:", "d:S", "d:SS", "d:SO", "d:O", "f:DS", "f:DSS", "l:DS", "m:DS", "f:D"]])
+        for _ in range(rng.randint(4, 24)):
+            if live and rng.random() < 0.4:
+                f = rng.choice(sorted(live))
+                del live[f]
+                lines.append("%s %d" % (rng.choice(["fin", "kill"]), f))
+                continue
+            sh = rng.choice(weights if weights and rng.random() < 0.7 else SEL_SHAPES)
+            ar = (1 if sh[0] == "d" else 0) + sum(1 for c in sh[2:] if c != "O")
+            roles = (["D"] if sh[0] == "d" else []) + [c for c in sh[2:] if c != "O"]
+            busy = set(live.values())
+            ids = []
+            for r in roles:
+                pool = [0, 1] if r == "S" else [2, 3]
+                # prefer an occupied object for the arguments that must NOT be selected, a free one for the selected one
+                ids.append(rng.choice(pool))
+            t = sel_current(sh, ids)
+            if t in busy:
+                # the selected storage is occupied: try the other object of that role, else release its frame first
+                alt = [list(ids)]
+                for i in range(len(ids)):
+                    x = list(ids)
+                    x[i] ^= 1
+                    alt.append(x)
+                alt = [x for x in alt if sel_current(sh, x) not in busy and not (api_select(sh, x) & busy)]
+                if alt and rng.random() < 0.8:
+                    ids = rng.choice(alt)
+                    t = sel_current(sh, ids)
+                else:
+                    f = [g for g, o in live.items() if o == t][0]
+                    del live[f]
+                    lines.append("%s %d" % (rng.choice(["fin", "kill"]), f))
+            if api_select(sh, ids) & set(live.values()):
+                continue        # f:SS with one of the two storages occupied: either may be used
+            n = rng.randint(0, 1)
+            lines.append("coro %s %s %d %d %d" % (sh, ",".join(map(str, ids)) or "-", n, sizes["%s/%d" % (sh, n)], t))
+            live[nframes] = t
+            nframes += 1
+        lines.append("end")
+        return {"id": 0, "lines": lines}
+
+    def gen_cases(self, rng, tier):
+        sizes = sel_sizes()
+        n = 600 if tier == "quick" else 40000
+        return [self.gen_case(rng, sizes) for _ in range(n)]
+
+    def nontrivial(self, case, out):
+        coros = [l for l in out if l.startswith("coro#")]
+        live = {}
+        two = False
+        for l in out:
+            head, _ = split_line(l)
+            m = re.match(r"(coro|fin|kill)#(\d+)$", head[0]) if head else None
+            if not m:
+                continue
+            if m.group(1) == "coro":
+                live[m.group(2)] = field(head, "sel")
+                two = two or len(set(live.values())) >= 2
+            else:
+                live.pop(m.group(2), None)
+        return len(coros) >= 3 and two
+
+    def stats(self, cases, outs):
+        shapes = {}
+        coros = reuse = growth = first = bystander_busy = derived_first_explicit = 0
+        for c in cases:
+            live = {}
+            for op, l in zip(c["lines"][1:], outs.get(str(c["id"]), [])):
+                head, evs = split_line(l)
+                w = op.split()
+                m = re.match(r"(coro|fin|kill)#(\d+)$", head[0]) if head else None
+                if not m:
+                    continue
+                if m.group(1) != "coro":
+                    live.pop(m.group(2), None)
+                    continue
+                coros += 1
+                shapes[w[1]] = shapes.get(w[1], 0) + 1
+                ids = [] if w[2] == "-" else [int(x) for x in w[2].split(",")]
+                objs = {o for k, o in sel_args(w[1], ids) if o is not None}
+                sel = field(head, "sel")
+                if any(str(o) in live.values() for o in objs if str(o) != sel):
+                    bystander_busy += 1
+                a = sel_args(w[1], ids)
+                if a[0][0] == "D" and a[1][0] == "S":
+                    derived_first_explicit += 1
+                if not evs:
+                    reuse += 1
+                elif any(e.startswith("del") for e in evs):
+                    growth += 1
+                else:
+                    first += 1
+                live[m.group(2)] = sel
+        return {"coroutines": coros, "by_signature": shapes, "served_without_heap_call": reuse, "growths": growth,
+                "first_allocations": first,
+                "created_while_another_argument's_storage_holds_a_live_frame": bystander_busy,
+                "derived_object_first_then_explicit_storage": derived_first_explicit}
+
+    def oracle(self, case, out):
+        """C19 on the implementation's trace: every frame lives in the storage the API selects for it, exclusively"""
+        hdr = case["lines"][0].split()
+        if len(hdr) < 3 or hdr[2] != "sel":
+            return []
+        hv = HeapView()
+        msgs = hv.msgs
+        occupied = {}       # frame -> storage object the API selected for it
+        warm = {}           # object -> largest frame served
+        for op, line in zip(case["lines"][1:], out):
+            w = op.split()
+            head, evs = split_line(line)
+            if not head:
+                continue
+            m = re.match(r"(coro|fin|kill)#(\d+)$", head[0])
+            kind = m.group(1) if m else head[0]
+            if kind == "coro":
+                fid = m.group(2)
+                ids = [] if w[2] == "-" else [int(x) for x in w[2].split(",")]
+                want = api_select(w[1], ids)
+                if want & set(occupied.values()):
+                    break       # the caller broke the one-live-frame contract of the selected storage: not judged
+                sz = int(field(head, "sz"))
+                sel = field(head, "sel")
+                if "noalloc" in head:
+                    msgs.append("routing: the coroutine frame was not obtained from a storage")
+                elif not sel.isdigit() or int(sel) not in want:
+                    msgs.append("selection: coroutine %s called with storage objects %s: the frame was served by storage object %s, "
+                                "the API selects %s" % (w[1], w[2], sel, "/".join(map(str, sorted(want)))))
+                if "BUSY" in head:
+                    msgs.append("exclusive: frame %s was placed into storage object %s, in which another frame is alive" % (fid, sel))
+                hv.events(evs)
+                hv.place(fid, field(head, "at"), sz, "OVERLAP" in head)
+                if field(head, "in") == "0":
+                    msgs.append("routing: the coroutine's locals are outside the memory the storage returned")
+                if sel.isdigit():
+                    if sz <= warm.get(sel, -1) and evs:
+                        msgs.append("warm: storage object %s served %d bytes before but made a heap call for %d" % (sel, warm[sel], sz))
+                    warm[sel] = max(warm.get(sel, -1), sz)
+                if "BUSY" in head or "OVERLAP" in head:
+                    break
+                occupied[fid] = int(sel) if sel.isdigit() else -1
+            elif kind in ("fin", "kill"):
+                fid = m.group(2)
+                if field(head, "cn") == "bad":
+                    msgs.append("canary: memory of frame %s was overwritten during its lifetime" % fid)
+                if field(head, "body") == "bad":
+                    msgs.append("canary: the coroutine found its own locals overwritten (frame %s)" % fid)
+                if field(head, "freed") != "ok":
+                    msgs.append("routing: frame %s was not returned to the storage with its pointer and size (freed=%s)" % (fid, field(head, "freed")))
+                hv.frames.pop(fid, None)
+                occupied.pop(fid, None)
+                hv.events(evs, dying=fid)
+            elif kind == "end":
+                hv.frames.clear()
+                hv.events(evs)
+                if field(head, "live") != "0":
+                    msgs.append("leak: %s heap block(s) never released" % field(head, "live"))
+            else:
+                hv.events(evs)
+        return msgs
+
+
 class SchedSuite(Suite):
     name = "mtsafe-sched"
     harness = HARNESS
@@ -678,7 +919,9 @@ class C19(Spec):
     design_ref = "DESIGN.md §5 C19"
     trusted_base = [
         "hand-written models lean/CoclsModel/Storage.lean (all policies, sequential) and StorageMt.lean (reusable_storage_mtsafe, "
-        "any number of threads, one step per hooked operation) tied to coro_storage.h / alloca_storage.h / with_allocator.h by "
+        "any number of threads, one step per hooked operation) and StorageSel.lean (custom_allocator_base's operator new overload "
+        "set as a function of the coroutine's argument list: free function / member / lambda, object derived from the storage "
+        "type, several storages; any number of reusable_storage objects) tied to coro_storage.h / alloca_storage.h / with_allocator.h by "
         "differential correspondence (harness/h_storage.cpp vs lean/Drivers/C19.lean) on generated histories and schedules",
         "operator new returns memory disjoint from every live block; std::vector<T>::resize as libstdc++ implements it "
         "(reallocation iff n > capacity, new capacity size+max(size,n-size)); the C++20 coroutine machinery calls the promise's "
@@ -686,7 +929,10 @@ class C19(Spec):
     technique = "Lean 4 invariant proofs (induction over all operation lists / all schedules) + differential correspondence with the real headers"
     level_text = ("Lean 4 theorems over executable models of every storage policy: exclusivity of live frames, block >= request + "
                   "trailer, heap blocks released exactly once and never leaked, no heap call after warm-up, extra object constructed "
-                  "and destroyed once; for reusable_storage_mtsafe additionally over all interleavings of any number of threads at the "
+                  "and destroyed once; which argument of a coroutine selects the storage (every signature: the documented argument, an "
+                  "explicitly passed storage is never displaced by an object that merely derives from the storage type) and, over all "
+                  "histories of coroutines of all signatures on any number of storage objects, every frame in the block of its selected "
+                  "object, no two live frames in one block; for reusable_storage_mtsafe additionally over all interleavings of any number of threads at the "
                   "granularity of single hooked operations (_busy exchange/store, operator new/delete). The models are tied to the "
                   "headers by running both on generated histories/schedules and diffing every line; the property oracles run on the "
                   "implementation's trace; a third suite runs real threads.")
@@ -700,7 +946,7 @@ class C19(Spec):
                    "a storage object outlives the frames it serves", "operator new does not fail"]
 
     def suites(self):
-        return [SeqSuite(), SchedSuite(), StressSuite()]
+        return [SeqSuite(), SelSuite(), SchedSuite(), StressSuite()]
 
 
 SPEC = C19()
